@@ -349,6 +349,8 @@ class ExprMixin:
                 a, b = self.coerce(a, T.REAL), self.coerce(b, T.REAL)
                 self.safety(b.term != 0, "ZeroDivisionError", line)
                 return SV(a.term / b.term, T.REAL)
+            if isinstance(op, ast.Pow):
+                return self.power(a, b, line)  # before unification: an int exponent stays an int
             a, b, t = self.unify(a, b, line)
             if t.kind == "bool":
                 a, b, t = self.coerce(a, T.INT), self.coerce(b, T.INT), T.INT
@@ -401,9 +403,16 @@ class ExprMixin:
                 self.side_fact(z3.Implies(b.term >= 1, r == ar.term * f(ar.term, b.term - 1)))
                 self.side_fact(z3.Implies(ar.term > 0, r > 0))
                 self.side_fact(z3.Implies(z3.And(ar.term >= 1, b.term >= 0), r >= 1))
-                if getattr(self, "float_range_checks", True):
+                if getattr(self, "float_range_checks", True) and not self.in_pure_mode():
                     dblmax = z3.RealVal("179769313486231570000000000000000000000000000000000000000000000000000000000000000000000000000000000000000000000000000000000000000000000000000000000000000000000000000000000000000000000000000000000000000000000000000000000000000000000000000000000000000000000000000000000000000000000000000000000")
-                    self.safety(z3.And(r <= dblmax, r >= -dblmax), "OverflowError:float-pow", line)
+                    in_range = z3.And(r <= dblmax, r >= -dblmax)
+                    catchers = {"OverflowError", "ArithmeticError", "Exception", "BaseException"}
+                    if any(catchers & set(hs) or not hs for hs in getattr(self, "try_handlers", [])):
+                        # the code handles the overflow itself: CPython raises OverflowError out of range
+                        if not self.branch(in_range, f"pow@{line}:"):
+                            self.raise_builtin("OverflowError", line)
+                    else:
+                        self.safety(in_range, "OverflowError:float-pow", line)
                 return SV(r, T.REAL)
             f = self.w.func("powrr", z3.RealSort(), z3.RealSort(), z3.RealSort())
             return SV(f(ar.term, self.coerce(b, T.REAL).term), T.REAL)
